@@ -109,6 +109,32 @@ Proof.
   f_equal. rewrite !zlen_app'. rewrite (wire_labels_len_ci _ _ CI). reflexivity.
 Qed.
 
+(* ---------- padding: add_opt with a block size is add_opt without, on the padded OPT ---------- *)
+Definition pad_opt (oo : optrec) (pad size : Z) : optrec :=
+  if pad =? 0 then oo
+  else mkOpt (oflags oo) (opayload oo)
+             (oopts oo ++ [(12, if size mod pad =? 0 then [] else repeat 0 (Z.to_nat (pad - size mod pad)))]).
+Definition pad_st (r : rst) (pad : Z) : rst := if pad =? 0 then r else set_padded r.
+
+Lemma add_opt_pad og oo pad os ts r :
+  add_opt og oo pad os ts r = add_opt og (pad_opt oo pad (zlen (out r) + os + ts)) 0 os ts (pad_st r pad).
+Proof. unfold add_opt, pad_opt, pad_st. destruct (pad =? 0); reflexivity. Qed.
+
+Lemma pad_st_fields r pad :
+  out (pad_st r pad) = out r /\ tbl (pad_st r pad) = tbl r /\ cq (pad_st r pad) = cq r /\ can (pad_st r pad) = can r /\
+  cau (pad_st r pad) = cau r /\ cad (pad_st r pad) = cad r /\ rflags (pad_st r pad) = rflags r /\
+  rsec (pad_st r pad) = rsec r /\ padded (pad_st r pad) = (if pad =? 0 then padded r else true).
+Proof. unfold pad_st. destruct (pad =? 0); repeat split; reflexivity. Qed.
+
+Definition opt_padded (m : msg) (pad : Z) : bool :=
+  match mopt m with Some _ => negb (pad =? 0) | None => false end.
+
+Lemma pad_opt_ok oo pad size : opts_ok (oopts oo) -> opts_ok (oopts (pad_opt oo pad size)).
+Proof.
+  intros H. unfold pad_opt. destruct (pad =? 0); [exact H|]. cbn [oopts]. unfold opts_ok in *.
+  apply Forall_app. split; [exact H|]. constructor; [reflexivity|constructor].
+Qed.
+
 Section WithOrigin.
 Variable o : option name.
 Hypothesis OO : org_ok o.
@@ -189,27 +215,28 @@ Hypothesis chainW : forall sec l r r' file,
     (forall l2 tq, R sec l ds l2 -> tbl_ci tq (tbl r) ->
        exists tq', add_rrsets o sec l2 (with_tbl r tq) = Ok (false, with_tbl r' tq') /\ tbl_ci tq' (tbl r')).
 
-Lemma render_body_gen m ms rp r hdr :
+Lemma render_body_gen_p pad m ms rp r hdr :
   zlen hdr = 12 ->
   Forall (fun rs => name_wf o (rname rs)) (mq m) ->
   Forall (W 1) (man m) -> Forall (W 2) (mau m) -> Forall (W 3) (mad m) ->
   match mopt m with Some oo => opts_ok (oopts oo) /\ name_wf o [[]] | None => True end ->
-  to_wire_st m o ms rp false 0 = Ok r ->
+  to_wire_st m o ms rp false pad = Ok r ->
   exists qs ds1 ds2 ds3 owner' wb body (e0 e1 e2 e3 : nat) r5,
     tail6 m r5 = Ok r /\
     out r5 = repeat 0 12 ++ body /\
     cq r5 = zlen qs /\ can r5 = zlen ds1 /\ cau r5 = zlen ds2 /\ cad r5 = zlen ds3 + opt_count (mopt m) /\
-    rflags r5 = mflags m /\ padded r5 = false /\ TblBelow r5 /\ rsec r5 <= 3 /\
+    rflags r5 = mflags m /\ padded r5 = opt_padded m pad /\ TblBelow r5 /\ rsec r5 <= 3 /\
     TableSound (hdr ++ body) (tbl r5) /\
     QChain o (hdr ++ body) 12 qs e0 /\ Chain o (hdr ++ body) e0 ds1 e1 /\ Chain o (hdr ++ body) e1 ds2 e2 /\
     Chain o (hdr ++ body) e2 ds3 e3 /\
     Forall2 (q_desc o) (mq m) qs /\ D 1 (man m) ds1 /\ D 2 (mau m) ds2 /\ D 3 (mad m) ds3 /\
     match mopt m with
-    | Some o' => (exists abs', RRreads o o (hdr ++ body) e3 abs' owner' tOPT (opayload o') (oflags o') [FRest] [PB wb] (length (hdr ++ body))) /\
+    | Some o1 => exists sz, let o' := pad_opt o1 pad sz in
+                 (exists abs', RRreads o o (hdr ++ body) e3 abs' owner' tOPT (opayload o') (oflags o') [FRest] [PB wb] (length (hdr ++ body))) /\
                  ci_equal owner' [[]] /\ opts_wire (oopts o') = Ok wb
     | None => e3 = length (hdr ++ body)
     end /\
-    (forall m2, mflags m2 = mflags m -> mopt m2 = mopt m -> mq m2 = map qrec qs ->
+    (pad = 0 -> forall m2, mflags m2 = mflags m -> mopt m2 = mopt m -> mq m2 = map qrec qs ->
        R 1 (man m) ds1 (man m2) -> R 2 (mau m) ds2 (mau m2) -> R 3 (mad m) ds3 (mad m2) ->
        compute_tsig_reserve m2 = compute_tsig_reserve m ->
        exists tq5, head5 m2 ms rp = Ok (with_tbl r5 tq5) /\ tbl_ci tq5 (tbl r5)).
@@ -264,7 +291,7 @@ Proof.
     { destruct (add_questions_req o (mq m) r2 r2 false s1 (req_refl r2)) as (_ & _ & _ & X & _); try exact S1;
         unfold r2; cbn [rsec set_limits r0]; lia. }
     lia. }
-  assert (RE4 : forall m2, mflags m2 = mflags m -> mopt m2 = mopt m -> mq m2 = map qrec qs ->
+  assert (RE4 : pad = 0 -> forall m2, mflags m2 = mflags m -> mopt m2 = mopt m -> mq m2 = map qrec qs ->
        R 1 (man m) ds1 (man m2) -> R 2 (mau m) ds2 (mau m2) -> R 3 (mad m) ds3 (mad m2) ->
        compute_tsig_reserve m2 = compute_tsig_reserve m ->
        exists tq4, tbl_ci tq4 (tbl s4) /\
@@ -272,7 +299,7 @@ Proof.
                           | Some oo => do br <- add_opt o oo 0 (compute_opt_reserve m 0) tr (with_tbl r4 tq4); raise_if_big br
                           | None => Ok (with_tbl r4 tq4)
                           end).
-  { intros m2 Hfl2 Hopt2 Hq2 HR1 HR2 HR3 Htr2.
+  { intros Hp m2 Hfl2 Hopt2 Hq2 HR1 HR2 HR3 Htr2. subst pad.
     assert (TC0 : tbl_ci [] (tbl r2)) by (unfold r2; cbn [tbl set_limits r0]; constructor).
     destruct (REq [] TC0) as (tq1 & Tq & TCq).
     destruct (RE1 (man m2) tq1 HR1 TCq) as (tq2 & T1 & TC1).
@@ -290,17 +317,25 @@ Proof.
     assert (TS4 : TableSound f3 (tbl r4)) by (unfold r4; cbn [tbl release_reserved set_limits]; exact TS3).
     assert (TB4 : TblBelow r4) by (unfold TblBelow, r4 in *; cbn [out tbl release_reserved set_limits]; exact TB3).
     destruct WO as (WO & NWr).
-    destruct (add_opt_chain o OO o' (compute_opt_reserve m 0) tr r4 s5 f3 NWr Hz4 TS4 TB4 A5)
+    rewrite add_opt_pad in A5.
+    set (sz := zlen (out r4) + compute_opt_reserve m pad + tr) in *.
+    set (o2 := pad_opt o' pad sz) in *. set (r4p := pad_st r4 pad) in *.
+    destruct (pad_st_fields r4 pad) as (Po & Pt & Pq0 & Pq1 & Pq2 & Pq3 & Pf & Ps & Pp). fold r4p in Po, Pt, Pq0, Pq1, Pq2, Pq3, Pf, Ps, Pp.
+    assert (Hz4p : zlen f3 = zlen (out r4p)) by (rewrite Po; exact Hz4).
+    assert (TS4p : TableSound f3 (tbl r4p)) by (rewrite Pt; exact TS4).
+    assert (TB4p : TblBelow r4p) by (unfold TblBelow; rewrite Po, Pt; exact TB4).
+    destruct (add_opt_chain o OO o2 (compute_opt_reserve m pad) tr r4p s5 f3 NWr Hz4p TS4p TB4p A5)
       as (emo & wb & abso & owner' & Oo & HW & CIo & RO & TSo & Q0 & Q1 & Q2 & Q3 & QF & REo).
+    rewrite Po in Oo. rewrite Pq0 in Q0. rewrite Pq1 in Q1. rewrite Pq2 in Q2. rewrite Pq3 in Q3. rewrite Pf in QF.
     unfold r4 in Oo, Q0, Q1, Q2, Q3, QF. cbn [out cq can cau cad rflags release_reserved set_limits] in Oo, Q0, Q1, Q2, Q3, QF.
     (* padded and section of s5, TblBelow s5 *)
-    assert (X5 : padded s5 = false /\ rsec s5 <= 3 /\ TblBelow s5).
+    assert (X5 : padded s5 = negb (pad =? 0) /\ rsec s5 <= 3 /\ TblBelow s5).
     { unfold add_opt in A5. cbn [Z.eqb] in A5. apply bind_ok in A5. destruct A5 as (rs & _ & A5).
       rewrite add_rrset_tracked in A5.
-      destruct (tracked_spec _ _ _ _ _ _ (ext_rrset_em _ _ _) TB4 A5) as (_ & em' & new' & _ & F' & [(_ & _ & ->)|(Hb & _)]);
+      destruct (tracked_spec _ _ _ _ _ _ (ext_rrset_em _ _ _) TB4p A5) as (_ & em' & new' & _ & F' & [(_ & _ & ->)|(Hb & _)]);
         [|discriminate].
-      cbn [padded rsec inc_count set_out set_rsec]. unfold r4. cbn [padded release_reserved set_limits].
-      split; [exact PD4|]. split; [lia|].
+      cbn [padded rsec inc_count set_out set_rsec]. rewrite Pp. unfold r4. cbn [padded release_reserved set_limits].
+      split; [rewrite PD4; destruct (pad =? 0); reflexivity|]. split; [lia|].
       unfold TblBelow. cbn [out tbl inc_count set_out]. apply TblBelow_step; assumption. }
     destruct X5 as (P5 & RS5 & TB5).
     exists qs, ds1, ds2, ds3, owner', wb, (emq ++ em1 ++ em2 ++ em3 ++ emo),
@@ -310,17 +345,21 @@ Proof.
     split; [exact FIN|].
     split; [rewrite Oo, Os4; rewrite <- !app_assoc; reflexivity|].
     split; [lia|]. split; [lia|]. split; [lia|]. split; [lia|]. split; [congruence|].
-    split; [exact P5|]. split; [exact TB5|]. split; [exact RS5|]. split; [exact TSo|].
+    split; [unfold opt_padded; rewrite EO; exact P5|]. split; [exact TB5|]. split; [exact RS5|]. split; [exact TSo|].
     split; [rewrite <- Hhl; rewrite Ef3; do 4 apply QChain_app_w; exact QC|].
     split; [rewrite Ef3; do 3 apply Chain_app_w; exact C1|].
     split; [rewrite Ef3; do 2 apply Chain_app_w; exact C2|].
     split; [apply Chain_app_w; exact C3|].
     split; [exact QD|]. split; [exact SD1|]. split; [exact SD2|]. split; [exact SD3|].
-    split; [split; [exists abso; exact RO|split; [exact CIo|exact HW]]|].
-    intros m2 Hfl2 Hopt2 Hq2 HR1 HR2 HR3 Htr2.
-    destruct (RE4 m2 Hfl2 Hopt2 Hq2 HR1 HR2 HR3 Htr2) as (tq4 & TC4 & H5).
-    destruct (REo tq4 TC4) as (tq5 & To & TCo).
-    exists tq5. split; [|exact TCo]. rewrite H5, To. reflexivity.
+    split; [exists sz; split; [exists abso; exact RO|split; [exact CIo|exact HW]]|].
+    intros Hp m2 Hfl2 Hopt2 Hq2 HR1 HR2 HR3 Htr2.
+    destruct (RE4 Hp m2 Hfl2 Hopt2 Hq2 HR1 HR2 HR3 Htr2) as (tq4 & TC4 & H5).
+    assert (TC4p : tbl_ci tq4 (tbl r4p)) by (rewrite Pt; exact TC4).
+    destruct (REo tq4 TC4p) as (tq5 & To & TCo).
+    exists tq5. split; [|exact TCo]. rewrite H5. subst pad.
+    change (add_opt o o' 0 (compute_opt_reserve m 0) tr (with_tbl r4 tq4))
+      with (add_opt o o2 0 (compute_opt_reserve m 0) tr (with_tbl r4p tq4)).
+    rewrite To. reflexivity.
   - injection R5 as <-.
     exists qs, ds1, ds2, ds3, [[]], [], (emq ++ em1 ++ em2 ++ em3),
       (length (hdr ++ emq)), (length ((hdr ++ emq) ++ em1)), (length (((hdr ++ emq) ++ em1) ++ em2)), (length f3), r4.
@@ -328,14 +367,14 @@ Proof.
     rewrite Ebody. cbn [opt_count]. unfold r4. cbn [out tbl cq can cau cad rflags padded rsec release_reserved set_limits].
     split; [exact FIN|]. split; [exact Os4|].
     split; [lia|]. split; [lia|]. split; [lia|]. split; [lia|]. split; [exact KF|].
-    split; [exact PD4|]. split; [exact TB3|]. split; [exact RS4|]. split; [exact TS3|].
+    split; [unfold opt_padded; rewrite EO; exact PD4|]. split; [exact TB3|]. split; [exact RS4|]. split; [exact TS3|].
     split; [rewrite <- Hhl; rewrite Ef3; do 3 apply QChain_app_w; exact QC|].
     split; [rewrite Ef3; do 2 apply Chain_app_w; exact C1|].
     split; [rewrite Ef3; apply Chain_app_w; exact C2|].
     split; [exact C3|].
     split; [exact QD|]. split; [exact SD1|]. split; [exact SD2|]. split; [exact SD3|]. split; [reflexivity|].
-    intros m2 Hfl2 Hopt2 Hq2 HR1 HR2 HR3 Htr2.
-    destruct (RE4 m2 Hfl2 Hopt2 Hq2 HR1 HR2 HR3 Htr2) as (tq4 & TC4 & H5).
+    intros Hp m2 Hfl2 Hopt2 Hq2 HR1 HR2 HR3 Htr2.
+    destruct (RE4 Hp m2 Hfl2 Hopt2 Hq2 HR1 HR2 HR3 Htr2) as (tq4 & TC4 & H5).
     exists tq4. split; [exact H5|exact TC4].
 Qed.
 
@@ -355,11 +394,11 @@ Definition wf_tsig (m : msg) : Prop :=
   end.
 
 (* the final octets: header with the counts, then the chains, the OPT and the TSIG record *)
-Lemma layout_final m ms rp w :
+Lemma layout_final_p pad m ms rp w :
   Forall (fun rs => name_wf o (rname rs)) (mq m) ->
   Forall (W 1) (man m) -> Forall (W 2) (mau m) -> Forall (W 3) (mad m) ->
   match mopt m with Some oo => opts_ok (oopts oo) /\ name_wf o [[]] | None => True end ->
-  wf_tsig m -> to_wire m o ms rp false 0 = Ok w ->
+  wf_tsig m -> to_wire m o ms rp false pad = Ok w ->
   exists qs ds1 ds2 ds3 owner' wb body (e0 e1 e2 e3 e4 : nat) (t' : option (name * rdata)),
     w = hdr_bytes (mid m) (mflags m) (zlen qs) (zlen ds1) (zlen ds2)
                   (zlen ds3 + opt_count (mopt m) + opt_count t') ++ body /\
@@ -368,7 +407,8 @@ Lemma layout_final m ms rp w :
     QChain o w 12 qs e0 /\ Chain o w e0 ds1 e1 /\ Chain o w e1 ds2 e2 /\ Chain o w e2 ds3 e3 /\
     Forall2 (q_desc o) (mq m) qs /\ D 1 (man m) ds1 /\ D 2 (mau m) ds2 /\ D 3 (mad m) ds3 /\
     match mopt m with
-    | Some o' => (exists abs', RRreads o o w e3 abs' owner' tOPT (opayload o') (oflags o') [FRest] [PB wb] e4) /\
+    | Some o1 => exists sz, let o' := pad_opt o1 pad sz in
+                 (exists abs', RRreads o o w e3 abs' owner' tOPT (opayload o') (oflags o') [FRest] [PB wb] e4) /\
                  ci_equal owner' [[]] /\ opts_wire (oopts o') = Ok wb /\ opts_ok (oopts o')
     | None => e4 = e3
     end /\
@@ -381,7 +421,7 @@ Lemma layout_final m ms rp w :
     | None, None => True
     | _, _ => False
     end /\
-    (forall m2, mid m2 = mid m -> mflags m2 = mflags m -> mopt m2 = mopt m -> mq m2 = map qrec qs ->
+    (pad = 0 -> forall m2, mid m2 = mid m -> mflags m2 = mflags m -> mopt m2 = mopt m -> mq m2 = map qrec qs ->
        R 1 (man m) ds1 (man m2) -> R 2 (mau m) ds2 (mau m2) -> R 3 (mad m) ds3 (mad m2) -> mtsig m2 = t' ->
        to_wire m2 o ms rp false 0 = Ok w).
 Proof.
@@ -390,7 +430,7 @@ Proof.
   set (hdr := firstn 12 (out r)).
   assert (Hh : zlen hdr = 12).
   { unfold hdr, zlen in *. rewrite firstn_length. lia. }
-  destruct (render_body_gen m ms rp r hdr Hh WQ WA WU WD WO HR)
+  destruct (render_body_gen_p pad m ms rp r hdr Hh WQ WA WU WD WO HR)
     as (qs & ds1 & ds2 & ds3 & owner' & wb & body & e0 & e1 & e2 & e3 & r5 & T6 & O5 & K0 & K1 & K2 & K3 & KF & P5 & TB5 & RS5 &
         TS5 & QC & C1 & C2 & C3 & QD & SD1 & SD2 & SD3 & HO & RE5).
   unfold tail6 in T6. apply bind_ok in T6. destruct T6 as (r6 & R6 & T6). pose proof R6 as R6'.
@@ -401,7 +441,7 @@ Proof.
   remember (hdr_bytes (mid m) (mflags m) (zlen qs) (zlen ds1) (zlen ds2) (zlen ds3 + opt_count (mopt m))) as h6 eqn:Eh6.
   assert (Lh6 : length h6 = 12%nat) by (subst h6; reflexivity).
   assert (F6 : out r6 = h6 ++ body /\ tbl r6 = tbl r5 /\ cq r6 = zlen qs /\ can r6 = zlen ds1 /\ cau r6 = zlen ds2 /\
-               cad r6 = zlen ds3 + opt_count (mopt m) /\ rflags r6 = mflags m /\ padded r6 = false).
+               cad r6 = zlen ds3 + opt_count (mopt m) /\ rflags r6 = mflags m /\ padded r6 = opt_padded m pad).
   { rewrite Er6. cbn [out tbl cq can cau cad rflags padded set_out]. repeat split; assumption. }
   destruct F6 as (F6o & F6t & F6q & F6a & F6u & F6d & F6f & F6p). clear Er6.
   unfold wf_tsig in WT.
@@ -437,21 +477,23 @@ Proof.
     rewrite F6o, F6t in HE8.
     assert (Z6 : zlen (h6 ++ body) = zlen (hdr ++ body)) by (rewrite !zlen_app', Hh; unfold zlen; rewrite Lh6; reflexivity).
     rewrite Z6 in HE8.
-    destruct (rr_em_read_x o None tsig_fs kn kn tTSIG cANY 0 rd true false (hdr ++ body) (tbl r5) et _ OO Logic.I TS5
+    destruct (rr_em_read_x o None tsig_fs kn kn tTSIG cANY 0 rd (negb (opt_padded m pad)) false (hdr ++ body) (tbl r5) et _ OO Logic.I TS5
                          (full_labels_abs kn o NOk) NOk POk SHk HE8)
       as (_ & _ & _ & _ & kn' & xk & rd' & c1 & rdl & CIk & NOk' & HXk & CIr & _ & _ & A & B & C & E & SLk & RE8).
-    assert (RR : forall m2, mid m2 = mid m -> mflags m2 = mflags m -> mopt m2 = mopt m -> mq m2 = map qrec qs ->
+    assert (RR : pad = 0 -> forall m2, mid m2 = mid m -> mflags m2 = mflags m -> mopt m2 = mopt m -> mq m2 = map qrec qs ->
        R 1 (man m) ds1 (man m2) -> R 2 (mau m) ds2 (mau m2) -> R 3 (mad m) ds3 (mad m2) -> mtsig m2 = Some (kn', rd') ->
        to_wire m2 o ms rp false 0 = Ok (out r)).
-    { intros m2 Hid2 Hfl2 Hopt2 Hq2 HR1 HR2 HR3 Ht2.
+    { intros Hp m2 Hid2 Hfl2 Hopt2 Hq2 HR1 HR2 HR3 Ht2.
+      assert (EC : negb (opt_padded m pad) = true) by (rewrite Hp; unfold opt_padded; destruct (mopt m); reflexivity).
+      rewrite EC in *.
       assert (Htr2 : compute_tsig_reserve m2 = compute_tsig_reserve m).
       { destruct (RE8 (tbl r5) kn kn (tbl_ci_refl _) (full_labels_abs kn o NOk) (lsim_refl _ _)) as (tqx & HEx & _).
         destruct (to_wire_st_stages _ _ _ _ _ _ _ HR) as (_ & tr & _ & _ & _ & _ & _ & _ & _ & _ & _ & _ & _ & TR & _).
         rewrite TR. exact (tsig_reserve_ci o m m2 kn rd kn' rd' tr _ _ _ _ _ ET Ht2 TR NOk NOk' CIk HE8 HEx). }
-      destruct (RE5 m2 Hfl2 Hopt2 Hq2 HR1 HR2 HR3 Htr2) as (tq5 & H5 & TC5).
+      destruct (RE5 Hp m2 Hfl2 Hopt2 Hq2 HR1 HR2 HR3 Htr2) as (tq5 & H5 & TC5).
       unfold to_wire. rewrite to_wire_st_head5, H5. cbn [bind]. unfold tail6. rewrite Hid2, Ht2.
       rewrite (write_header_with_tbl _ _ _ tq5 R6'). cbn [bind].
-      rewrite write_tsig_eq. cbn [padded with_tbl set_out]. rewrite F6p. cbn [negb].
+      rewrite write_tsig_eq. cbn [padded with_tbl set_out]. rewrite F6p. rewrite EC.
       destruct (tracked_sim (rr_em kn' tTSIG cANY 0 rd' o None true false) _ _ _ _ _ tq5 A8') as (tq8 & T8 & TC8).
       { rewrite F6t. exact TC5. }
       { intros em0 t0 HE0. rewrite F6o, F6t, Z6 in HE0. rewrite F6o, Z6.
@@ -472,22 +514,23 @@ Proof.
     split; [exact QD|]. split; [exact SD1|]. split; [exact SD2|]. split; [exact SD3|].
     split.
     { destruct (mopt m) as [o'|].
-      - destruct HO as ((abso & RO) & CI & HW). destruct WO as (WO1 & _).
-        split; [exists abso; rewrite app_assoc; apply RRreads_app; exact RO|]. auto.
+      - destruct HO as (sz & (abso & RO) & CI & HW). destruct WO as (WO1 & _). exists sz.
+        split; [exists abso; rewrite app_assoc; apply RRreads_app; exact RO|].
+        split; [exact CI|]. split; [exact HW|]. apply pad_opt_ok. exact WO1.
       - symmetry. exact HO. }
     split; [|split; [split; [exact CIk|exact CIr]|]].
     { exists xk. rewrite app_assoc. exists c1, rdl. split; [exact A|]. split; [lia|]. split; [exact B|]. split; [exact C|]. exact E. }
-    intros m2 Hid2 Hfl2 Hopt2 Hq2 HR1 HR2 HR3 Ht2. rewrite (RR m2 Hid2 Hfl2 Hopt2 Hq2 HR1 HR2 HR3 Ht2).
+    intros Hp m2 Hid2 Hfl2 Hopt2 Hq2 HR1 HR2 HR3 Ht2. rewrite (RR Hp m2 Hid2 Hfl2 Hopt2 Hq2 HR1 HR2 HR3 Ht2).
     rewrite Er. reflexivity.
   - (* without TSIG *)
     injection T6 as <-.
-    assert (RR : forall m2, mid m2 = mid m -> mflags m2 = mflags m -> mopt m2 = mopt m -> mq m2 = map qrec qs ->
+    assert (RR : pad = 0 -> forall m2, mid m2 = mid m -> mflags m2 = mflags m -> mopt m2 = mopt m -> mq m2 = map qrec qs ->
        R 1 (man m) ds1 (man m2) -> R 2 (mau m) ds2 (mau m2) -> R 3 (mad m) ds3 (mad m2) -> mtsig m2 = None ->
        to_wire m2 o ms rp false 0 = Ok (out r6)).
-    { intros m2 Hid2 Hfl2 Hopt2 Hq2 HR1 HR2 HR3 Ht2.
+    { intros Hp m2 Hid2 Hfl2 Hopt2 Hq2 HR1 HR2 HR3 Ht2.
       assert (Htr2 : compute_tsig_reserve m2 = compute_tsig_reserve m).
       { unfold compute_tsig_reserve. rewrite Ht2, ET. reflexivity. }
-      destruct (RE5 m2 Hfl2 Hopt2 Hq2 HR1 HR2 HR3 Htr2) as (tq5 & H5 & TC5).
+      destruct (RE5 Hp m2 Hfl2 Hopt2 Hq2 HR1 HR2 HR3 Htr2) as (tq5 & H5 & TC5).
       unfold to_wire. rewrite to_wire_st_head5, H5. cbn [bind]. unfold tail6. rewrite Hid2, Ht2.
       rewrite (write_header_with_tbl _ _ _ tq5 R6'). reflexivity. }
     assert (Ehdr : hdr = h6).
@@ -501,12 +544,87 @@ Proof.
     split; [exact QD|]. split; [exact SD1|]. split; [exact SD2|]. split; [exact SD3|].
     split.
     { destruct (mopt m) as [o'|]; [|reflexivity].
-      destruct HO as (RO & CI & HW). destruct WO as (WO1 & _). split; [exact RO|]. auto. }
+      destruct HO as (sz & RO & CI & HW). destruct WO as (WO1 & _). exists sz. split; [exact RO|].
+      split; [exact CI|]. split; [exact HW|]. apply pad_opt_ok. exact WO1. }
     split; [|split; [exact Logic.I|]].
     { destruct (mopt m) as [o'|]; [reflexivity|exact HO]. }
-    intros m2 Hid2 Hfl2 Hopt2 Hq2 HR1 HR2 HR3 Ht2. rewrite (RR m2 Hid2 Hfl2 Hopt2 Hq2 HR1 HR2 HR3 Ht2).
+    intros Hp m2 Hid2 Hfl2 Hopt2 Hq2 HR1 HR2 HR3 Ht2. rewrite (RR Hp m2 Hid2 Hfl2 Hopt2 Hq2 HR1 HR2 HR3 Ht2).
     rewrite F6o. reflexivity.
 Qed.
+
+(* the unpadded instances *)
+Lemma render_body_gen m ms rp r hdr :
+  zlen hdr = 12 ->
+  Forall (fun rs => name_wf o (rname rs)) (mq m) ->
+  Forall (W 1) (man m) -> Forall (W 2) (mau m) -> Forall (W 3) (mad m) ->
+  match mopt m with Some oo => opts_ok (oopts oo) /\ name_wf o [[]] | None => True end ->
+  to_wire_st m o ms rp false 0 = Ok r ->
+  exists qs ds1 ds2 ds3 owner' wb body (e0 e1 e2 e3 : nat) r5,
+    tail6 m r5 = Ok r /\
+    out r5 = repeat 0 12 ++ body /\
+    cq r5 = zlen qs /\ can r5 = zlen ds1 /\ cau r5 = zlen ds2 /\ cad r5 = zlen ds3 + opt_count (mopt m) /\
+    rflags r5 = mflags m /\ padded r5 = false /\ TblBelow r5 /\ rsec r5 <= 3 /\
+    TableSound (hdr ++ body) (tbl r5) /\
+    QChain o (hdr ++ body) 12 qs e0 /\ Chain o (hdr ++ body) e0 ds1 e1 /\ Chain o (hdr ++ body) e1 ds2 e2 /\
+    Chain o (hdr ++ body) e2 ds3 e3 /\
+    Forall2 (q_desc o) (mq m) qs /\ D 1 (man m) ds1 /\ D 2 (mau m) ds2 /\ D 3 (mad m) ds3 /\
+    match mopt m with
+    | Some o' => (exists abs', RRreads o o (hdr ++ body) e3 abs' owner' tOPT (opayload o') (oflags o') [FRest] [PB wb] (length (hdr ++ body))) /\
+                 ci_equal owner' [[]] /\ opts_wire (oopts o') = Ok wb
+    | None => e3 = length (hdr ++ body)
+    end.
+Proof.
+  intros Hh WQ WA WU WD WO H.
+  destruct (render_body_gen_p 0 m ms rp r hdr Hh WQ WA WU WD WO H)
+    as (qs & ds1 & ds2 & ds3 & owner' & wb & body & e0 & e1 & e2 & e3 & r5 &
+        A1&A2&A3&A4&A5&A6&A7&A8&A9&A10&A11&A12&A13&A14&A15&A16&A17&A18&A19&A20&_).
+  exists qs, ds1, ds2, ds3, owner', wb, body, e0, e1, e2, e3, r5.
+  assert (A8' : padded r5 = false) by (rewrite A8; unfold opt_padded; destruct (mopt m); reflexivity).
+  clear A8.
+  repeat (split; [assumption|]).
+  destruct (mopt m) as [o1|]; [|exact A20]. destruct A20 as (sz & X). exact X.
+Qed.
+
+Lemma layout_final m ms rp w :
+  Forall (fun rs => name_wf o (rname rs)) (mq m) ->
+  Forall (W 1) (man m) -> Forall (W 2) (mau m) -> Forall (W 3) (mad m) ->
+  match mopt m with Some oo => opts_ok (oopts oo) /\ name_wf o [[]] | None => True end ->
+  wf_tsig m -> to_wire m o ms rp false 0 = Ok w ->
+  exists qs ds1 ds2 ds3 owner' wb body (e0 e1 e2 e3 e4 : nat) (t' : option (name * rdata)),
+    w = hdr_bytes (mid m) (mflags m) (zlen qs) (zlen ds1) (zlen ds2)
+                  (zlen ds3 + opt_count (mopt m) + opt_count t') ++ body /\
+    0 <= mid m <= 65535 /\ 0 <= mflags m <= 65535 /\ zlen qs <= 65535 /\ zlen ds1 <= 65535 /\ zlen ds2 <= 65535 /\
+    zlen ds3 + opt_count (mopt m) + opt_count t' <= 65535 /\
+    QChain o w 12 qs e0 /\ Chain o w e0 ds1 e1 /\ Chain o w e1 ds2 e2 /\ Chain o w e2 ds3 e3 /\
+    Forall2 (q_desc o) (mq m) qs /\ D 1 (man m) ds1 /\ D 2 (mau m) ds2 /\ D 3 (mad m) ds3 /\
+    match mopt m with
+    | Some o' => (exists abs', RRreads o o w e3 abs' owner' tOPT (opayload o') (oflags o') [FRest] [PB wb] e4) /\
+                 ci_equal owner' [[]] /\ opts_wire (oopts o') = Ok wb /\ opts_ok (oopts o')
+    | None => e4 = e3
+    end /\
+    match t' with
+    | Some (kn', rd') => exists x, RRreads o None w e4 kn' x tTSIG cANY 0 tsig_fs rd' (length w)
+    | None => e4 = length w
+    end /\
+    match t', mtsig m with
+    | Some (kn', rd'), Some (kn, rd) => ci_equal kn' kn /\ rdata_ci rd' rd
+    | None, None => True
+    | _, _ => False
+    end /\
+    (forall m2, mid m2 = mid m -> mflags m2 = mflags m -> mopt m2 = mopt m -> mq m2 = map qrec qs ->
+       R 1 (man m) ds1 (man m2) -> R 2 (mau m) ds2 (mau m2) -> R 3 (mad m) ds3 (mad m2) -> mtsig m2 = t' ->
+       to_wire m2 o ms rp false 0 = Ok w).
+Proof.
+  intros WQ WA WU WD WO WT H.
+  destruct (layout_final_p 0 m ms rp w WQ WA WU WD WO WT H)
+    as (qs & ds1 & ds2 & ds3 & owner' & wb & body & e0 & e1 & e2 & e3 & e4 & t' &
+        A1&A2&A3&A4&A5&A6&A7&A8&A9&A10&A11&A12&A13&A14&A15&A16&A17&A18&A19).
+  exists qs, ds1, ds2, ds3, owner', wb, body, e0, e1, e2, e3, e4, t'.
+  repeat (split; [assumption|]).
+  split; [|split; [exact A17|split; [exact A18|exact (A19 eq_refl)]]].
+  destruct (mopt m) as [o1|]; [|exact A16]. destruct A16 as (sz & X). exact X.
+Qed.
+
 End Body.
 
 Lemma render_body m ms rp r hdr :
@@ -527,12 +645,8 @@ Lemma render_body m ms rp r hdr :
     end.
 Proof.
   intros Hh [W0 WQ WA WU WD KA KU KD WO] H.
-  destruct (render_body_gen (fun _ => wf_rrset o) (fun _ => SecDesc o) (fun _ => Rebuilt)
-                         (fun sec l r r' file => add_rrsets_chain_x o OO sec l r r' file) m ms rp r hdr Hh WQ WA WU WD WO H)
-    as (qs & ds1 & ds2 & ds3 & owner' & wb & body & e0 & e1 & e2 & e3 & r5 &
-        A1&A2&A3&A4&A5&A6&A7&A8&A9&A10&A11&A12&A13&A14&A15&A16&A17&A18&A19&A20&_).
-  exists qs, ds1, ds2, ds3, owner', wb, body, e0, e1, e2, e3, r5.
-  repeat (split; [assumption|]). exact A20.
+  exact (render_body_gen (fun _ => wf_rrset o) (fun _ => SecDesc o) (fun _ => Rebuilt)
+                         (fun sec l r r' file => add_rrsets_chain_x o OO sec l r r' file) m ms rp r hdr Hh WQ WA WU WD WO H).
 Qed.
 
 (* ---------- the TSIG record ---------- *)
@@ -653,14 +767,20 @@ Proof.
     unfold read_result_t, read_result. fold m1 m2 m3 m4 m5. reflexivity.
 Qed.
 
-Lemma read_result_equiv m qs ds1 ds2 ds3 :
+Lemma read_result_equiv m qs ds1 ds2 ds3 oo :
   WfMsg o m -> Forall2 (q_desc o) (mq m) qs -> SecDesc o (man m) ds1 -> SecDesc o (mau m) ds2 -> SecDesc o (mad m) ds3 ->
-  msg_equiv (read_result (mid m) (mflags m) qs ds1 ds2 ds3 (mopt m)) m /\
-  mtsig (read_result (mid m) (mflags m) qs ds1 ds2 ds3 (mopt m)) = None /\
-  mq (read_result (mid m) (mflags m) qs ds1 ds2 ds3 (mopt m)) = map qrec qs /\
-  Rebuilt (man m) ds1 (man (read_result (mid m) (mflags m) qs ds1 ds2 ds3 (mopt m))) /\
-  Rebuilt (mau m) ds2 (mau (read_result (mid m) (mflags m) qs ds1 ds2 ds3 (mopt m))) /\
-  Rebuilt (mad m) ds3 (mad (read_result (mid m) (mflags m) qs ds1 ds2 ds3 (mopt m))).
+  (mid (read_result (mid m) (mflags m) qs ds1 ds2 ds3 oo) = mid m /\
+   mflags (read_result (mid m) (mflags m) qs ds1 ds2 ds3 oo) = mflags m /\
+   Forall2 q_equiv (mq (read_result (mid m) (mflags m) qs ds1 ds2 ds3 oo)) (mq m) /\
+   Forall2 rrset_equiv (man (read_result (mid m) (mflags m) qs ds1 ds2 ds3 oo)) (man m) /\
+   Forall2 rrset_equiv (mau (read_result (mid m) (mflags m) qs ds1 ds2 ds3 oo)) (mau m) /\
+   Forall2 rrset_equiv (mad (read_result (mid m) (mflags m) qs ds1 ds2 ds3 oo)) (mad m) /\
+   mopt (read_result (mid m) (mflags m) qs ds1 ds2 ds3 oo) = oo) /\
+  mtsig (read_result (mid m) (mflags m) qs ds1 ds2 ds3 oo) = None /\
+  mq (read_result (mid m) (mflags m) qs ds1 ds2 ds3 oo) = map qrec qs /\
+  Rebuilt (man m) ds1 (man (read_result (mid m) (mflags m) qs ds1 ds2 ds3 oo)) /\
+  Rebuilt (mau m) ds2 (mau (read_result (mid m) (mflags m) qs ds1 ds2 ds3 oo)) /\
+  Rebuilt (mad m) ds3 (mad (read_result (mid m) (mflags m) qs ds1 ds2 ds3 oo)).
 Proof.
   intros [W0 WQ WA WU WD KA KU KD WO] QD SD1 SD2 SD3. unfold read_result.
   set (m0 := mkMsg (mid m) (mflags m) [] [] [] [] None None).
@@ -685,10 +805,10 @@ Proof.
   assert (QE : Forall2 q_equiv (mq m1) (mq m)).
   { rewrite Q7. cbn [mq m0 app]. clear - QD. induction QD as [|rs q l qs (A & B & C & D) _ IH]; cbn [map]; constructor; [|exact IH].
     unfold q_equiv. cbn [rname rclass rtype rcovers rdeleting rttl rrds]. auto 10. }
-  destruct (mopt m) as [o'|] eqn:EO.
-  - unfold msg_equiv. cbn [mid mflags mq man mau mad mopt mtsig set_opt]. rewrite F1, F2, F3, F4, F5, F6, EO.
+  destruct oo as [o'|].
+  - cbn [mid mflags mq man mau mad mopt mtsig set_opt]. rewrite F1, F2, F3, F4, F5, F6.
     split; [repeat split; assumption|]. split; [exact F8|]. split; [rewrite Q7; reflexivity|]. auto.
-  - unfold msg_equiv. rewrite F1, F2, F3, F4, F5, F6, F7, EO. split; [repeat split; assumption|].
+  - rewrite F1, F2, F3, F4, F5, F6, F7. split; [repeat split; assumption|].
     split; [exact F8|]. split; [rewrite Q7; reflexivity|]. auto.
 Qed.
 
@@ -702,7 +822,7 @@ Proof.
                          (fun sec l r r' file => add_rrsets_chain_x o OO sec l r r' file) m ms rp w WQ WA WU WD WO WT H)
     as (qs & ds1 & ds2 & ds3 & owner' & wb & body & e0 & e1 & e2 & e3 & e4 & t' & Ew & Hid & Hfl & L0 & L1 & L2 & L3 &
         QC & C1 & C2 & C3 & QD & SD1 & SD2 & SD3 & HO & HT & TE & RR).
-  destruct (read_result_equiv m qs ds1 ds2 ds3 WF QD SD1 SD2 SD3) as (EQ & TN & MQ & RB1 & RB2 & RB3).
+  destruct (read_result_equiv m qs ds1 ds2 ds3 (mopt m) WF QD SD1 SD2 SD3) as (EQ & TN & MQ & RB1 & RB2 & RB3).
   exists (read_result_t (mid m) (mflags m) qs ds1 ds2 ds3 (mopt m) t'). split; [|split].
   - rewrite Ew in *. eapply read_structure_t; try eassumption.
     + apply (SecDesc_ordinary o) with (l := man m); assumption.
@@ -717,6 +837,51 @@ Proof.
   - destruct EQ as (Q1 & Q2 & _ & _ & _ & _ & Q7).
     apply RR; unfold read_result_t; destruct t' as [[kn' rd']|]; cbn [mid mflags mq man mau mad mopt mtsig set_tsig];
       try assumption; try reflexivity.
+Qed.
+
+(* with padding: the parsed message carries the padding option that Renderer.add_opt appended *)
+Definition opt_rel (pad : Z) (a b : option optrec) : Prop :=
+  match b with
+  | None => a = None
+  | Some o1 => exists sz, a = Some (pad_opt o1 pad sz)
+  end.
+
+Definition msg_equiv_p (pad : Z) (m' m : msg) : Prop :=
+  mid m' = mid m /\ mflags m' = mflags m /\
+  Forall2 q_equiv (mq m') (mq m) /\
+  Forall2 rrset_equiv (man m') (man m) /\ Forall2 rrset_equiv (mau m') (mau m) /\
+  Forall2 rrset_equiv (mad m') (mad m) /\
+  opt_rel pad (mopt m') (mopt m) /\ tsig_equiv (mtsig m') (mtsig m).
+
+Theorem render_parse_pad_lemma pad m ms rp w :
+  WfMsg o m -> wf_tsig m -> to_wire m o ms rp false pad = Ok w ->
+  exists m', from_wire w o po0 = Ok m' /\ msg_equiv_p pad m' m.
+Proof.
+  intros WF WT H. pose proof WF as [W0 WQ WA WU WD KA KU KD WO].
+  destruct (layout_final_p (fun _ => wf_rrset o) (fun _ => SecDesc o) (fun _ => Rebuilt)
+                         (fun sec l r r' file => add_rrsets_chain_x o OO sec l r r' file) pad m ms rp w WQ WA WU WD WO WT H)
+    as (qs & ds1 & ds2 & ds3 & owner' & wb & body & e0 & e1 & e2 & e3 & e4 & t' & Ew & Hid & Hfl & L0 & L1 & L2 & L3 &
+        QC & C1 & C2 & C3 & QD & SD1 & SD2 & SD3 & HO & HT & TE & _).
+  assert (X : exists oo, opt_rel pad oo (mopt m) /\ opt_count oo = opt_count (mopt m) /\
+              match oo with
+              | Some o' => (exists abs', RRreads o o w e3 abs' owner' tOPT (opayload o') (oflags o') [FRest] [PB wb] e4) /\
+                           ci_equal owner' [[]] /\ opts_wire (oopts o') = Ok wb /\ opts_ok (oopts o')
+              | None => e4 = e3
+              end).
+  { destruct (mopt m) as [o1|].
+    - destruct HO as (sz & HO). exists (Some (pad_opt o1 pad sz)). split; [exists sz; reflexivity|]. split; [reflexivity|exact HO].
+    - exists None. split; [reflexivity|]. split; [reflexivity|exact HO]. }
+  destruct X as (oo & OR & OC & HO').
+  destruct (read_result_equiv m qs ds1 ds2 ds3 oo WF QD SD1 SD2 SD3) as ((Q1 & Q2 & Q3 & Q4 & Q5 & Q6 & Q7) & TN & _).
+  exists (read_result_t (mid m) (mflags m) qs ds1 ds2 ds3 oo t'). split.
+  - rewrite Ew in *. rewrite <- OC in *. eapply read_structure_t; try eassumption.
+    + apply (SecDesc_ordinary o) with (l := man m); assumption.
+    + apply (SecDesc_ordinary o) with (l := mau m); assumption.
+    + apply (SecDesc_ordinary o) with (l := mad m); assumption.
+  - unfold msg_equiv_p, read_result_t. destruct t' as [[kn' rd']|].
+    + cbn [mid mflags mq man mau mad mopt mtsig set_tsig tsig_equiv]. rewrite Q7.
+      repeat (split; [assumption|]). destruct (mtsig m) as [[kn rd]|]; [exact TE|contradiction].
+    + rewrite Q7, TN. repeat (split; [assumption|]). destruct (mtsig m) as [[kn rd]|]; [contradiction|exact Logic.I].
 Qed.
 
 Theorem render_parse_full_lemma m ms rp w :
